@@ -5,6 +5,7 @@ package publicsuffix
 import (
 	"fmt"
 	"strings"
+	"sync"
 	"testing"
 
 	"golang.org/x/net/internal/verifrt"
@@ -170,6 +171,8 @@ func TestVerif_C51(t *testing.T) {
 		}
 	}
 
+	var noteMu sync.Mutex
+	noted, nnoted := map[string]bool{}, map[string]int{}
 	check := func(c *verifrt.Case, kind, domain string, sample bool) {
 		labels := strings.Split(domain, ".")
 		for _, l := range labels {
@@ -212,6 +215,13 @@ func TestVerif_C51(t *testing.T) {
 			c.Violation(key, "[%s] PublicSuffix(%q)=(%q,icann=%v) but the prevailing rule is %q (%s), %d rules match", kind, domain, got, icann, want.prevailing,
 				map[string]string{"icann-false-for-icann-rule": "ICANN section", "icann-true-under-default-rule": "the implicit default rule, name not in the list", "icann-true-for-private-rule": "private section"}[key], want.nmatch)
 			r.Event("violations_"+key, 1)
+			noteMu.Lock()
+			if !noted[key+got] && nnoted[key] < 12 {
+				noted[key+got] = true
+				nnoted[key]++
+				r.Note("%s: PublicSuffix(%q)=(%q,%v), prevailing rule %q", key, domain, got, icann, want.prevailing)
+			}
+			noteMu.Unlock()
 		}
 		e, err := EffectiveTLDPlusOne(domain)
 		nl := strings.Count(want.suffix, ".") + 1
